@@ -247,7 +247,9 @@ CHECKS["C06"] = dict(
          "theory_term_to_term and get_variables vs the model on random theory terms / head atoms; clingo's "
          "theory terms of random ground symbols vs the model's symTerm and the real create_symbol; the real IntervalSet vs the model; "
          "the L4 equation check on theory atoms with several elements and conditions (incl. equal formulas under different "
-         "conditions).  Search: a rule schema over d(1..2) vs its own textual instantiation (variables, pools, intervals, arithmetic, "
+         "conditions); transform_commutes_with_substitution / program_transform_commutes_with_substitution — the rewriting commutes with "
+         "substitution on whole statements and programs (a statement as the sequence of its atom occurrences with the flags of their "
+         "positions; one real TermTransformer over random sequences vs the model addTimeStmt).  Search: a rule schema over d(1..2) vs its own textual instantiation (variables, pools, intervals, arithmetic, "
          "comparisons, classical negation, aggregates, n-fold prefixes given by variables also inside unbounded head operators, #show, "
          "#external; element conditions with local variables are instantiated as the documented conjunction of implications), equal "
          "answer sets per horizon.",
